@@ -347,11 +347,14 @@ Definition wf_stream (insts : list icfg) : bool :=
 
 Definition known_b (c : case) : N := 0.
 
+(** the input requirements of a case (only stream cases have any) *)
+Definition in_domain (c : case) : bool :=
+  match c with
+  | CStream _ insts _ _ _ => wf_stream insts
+  | _ => true
+  end.
+
 (** a stream case whose inputs do not meet the requirements is a harness defect: reported as a
     disagreement (1), never silently skipped *)
 Definition judge (c : case) : N :=
-  match c with
-  | CStream _ insts _ _ _ =>
-      if wf_stream insts then judge_code (corr_b c) (prop_b c) (known_b c) else 1%N
-  | _ => judge_code (corr_b c) (prop_b c) (known_b c)
-  end.
+  if in_domain c then judge_code (corr_b c) (prop_b c) (known_b c) else 1%N.
